@@ -1,4 +1,4 @@
 SPECIFICATION Spec
 CONSTANTS Family = "all"
-INVARIANTS LawAllDelivered LawSameObject LawHypot Emit
+INVARIANTS LawAllDelivered LawSameObject LawHypot LawOwnModule Emit
 CHECK_DEADLOCK FALSE
